@@ -126,7 +126,7 @@ def run(ctx):
             sib = cases.sibling_weights_permuted(ctx.rnd, c["profile"])
             if sib is not None:
                 ctx.count("sibling_profiles")
-                check_case(ctx, {"cfg": c["cfg"], "profile": sib, "tag": "sibling"}, max_runs)
+                check_case(ctx, {"cfg": c["cfg"], "profile": sib, "tag": "sibling", "prelude": c}, max_runs)
 
 
 def replay(ctx, case):
